@@ -463,9 +463,9 @@ Proof.
   assert (Hvl : length vals = length band) by (unfold vals; apply map_length).
   unfold pinv in *.
   destruct (ac_refine_scan (eob_scan vals 0 0) vals 0 0 0 st) as [[[[syms r] br] st1]|] eqn:Es; [|discriminate].
-  destruct (ac_refine_scan_ok prec Hp _ vals 0 0 0 st syms r br st1 Hinv ltac:(lia) ltac:(lia)
+  destruct (ac_refine_scan_ok prec Hp (eob_scan vals 0 0) vals 0 0 0 st syms r br st1 Hinv ltac:(lia) ltac:(lia)
               (pt_abs_nonneg Al band)
-              ltac:(intros j Hj H1; apply eob_scan_covers; assumption) Es) as (A & B & C).
+              ltac:(intros j Hj H1; apply (eob_scan_covers vals 0 0 j Hj H1)) Es) as (A & B & C).
   unfold EOBRUN_LIMIT in *.
   destruct ((r >? 0) || (br >? 0)).
   - cbn [eobrun be] in H.
@@ -529,4 +529,300 @@ Proof.
   pose proof (nbits_le temp 16 ltac:(lia) ltac:(change (2 ^ 16) with 65536; lia)) as H1.
   unfold MAX_DIFF_BITS. destruct (nbits temp >? 16) eqn:E; [lia|].
   eexists. split; [reflexivity|]. unfold okc, class_ok, MAX_DIFF_BITS. lia.
+Qed.
+
+(* ----------------------------------------------------------- count arrays *)
+Lemma firstn_upd : forall A n (l : list A) i v, firstn n (upd i v l) = upd i v (firstn n l).
+Proof.
+  induction n as [|n IH]; intros l i v; [destruct i; reflexivity|].
+  destruct l as [|h t]; [destruct i; reflexivity|].
+  destruct i; cbn [upd firstn]; [reflexivity|]. now rewrite IH.
+Qed.
+
+Lemma nth_firstn_lt : forall A n (l : list A) i d, (i < n)%nat -> nth i (firstn n l) d = nth i l d.
+Proof.
+  induction n as [|n IH]; intros l i d H; [lia|].
+  destruct l as [|h t]; [reflexivity|]. destruct i; cbn [firstn nth]; [reflexivity|]. apply IH; lia.
+Qed.
+
+Lemma sumZ_upd : forall l i v, (i < length l)%nat -> sumZ (upd i v l) = sumZ l - nth i l 0 + v.
+Proof.
+  induction l as [|h t IH]; intros i v H; cbn [length] in H; [lia|].
+  destruct i; cbn [upd sumZ nth]; [lia|]. rewrite IH by lia. lia.
+Qed.
+
+Lemma nth_le_sumZ : forall l i, (forall j, 0 <= nth j l 0) -> nth i l 0 <= sumZ l.
+Proof.
+  induction l as [|h t IH]; intros i H; [destruct i; cbn; lia|].
+  assert (Ht : forall j, 0 <= nth j t 0) by (intros j; apply (H (S j))).
+  assert (0 <= sumZ t) by (pose proof (IH 0%nat Ht); pose proof (Ht 0%nat); lia).
+  pose proof (H 0%nat) as Hh. cbn [nth] in Hh.
+  destruct i; cbn [nth sumZ]; [lia|]. specialize (IH i Ht). lia.
+Qed.
+
+(* invariant of "counts[symbol]++" over a pass that counts only symbols of `good` *)
+Definition cinv (good : Z -> bool) (c : list Z) (n : Z) : Prop :=
+  length c = 257%nat /\ (forall i, 0 <= nth i c 0) /\ sumZ (firstn 256 c) = n /\
+  (forall i : nat, good (Z.of_nat i) = false -> nth i c 0 = 0).
+
+Lemma count_fold_inv : forall good syms c n,
+  (forall s, good s = true -> 0 <= s < 256) ->
+  cinv good c n -> Forall (fun s => good s = true) syms ->
+  cinv good (fold_left count_one syms c) (n + Z.of_nat (length syms)).
+Proof.
+  intros good. induction syms as [|s t IH]; intros c n Hr Hc Hs; cbn [fold_left length].
+  - replace (n + Z.of_nat 0) with n by lia. exact Hc.
+  - inversion Hs as [|? ? Hs1 Hs2]; subst.
+    replace (n + Z.of_nat (S (length t))) with ((n + 1) + Z.of_nat (length t)) by lia.
+    apply IH; [exact Hr| |exact Hs2].
+    destruct Hc as (C1 & C2 & C3 & C4). pose proof (Hr s Hs1) as Hsr.
+    unfold count_one, nthZ. repeat split.
+    + rewrite upd_length. exact C1.
+    + intros i. rewrite nth_upd. destruct (Nat.eqb i (Z.to_nat s) && Nat.ltb (Z.to_nat s) (length c))%bool.
+      * pose proof (C2 (Z.to_nat s)). lia.
+      * apply C2.
+    + rewrite firstn_upd. rewrite sumZ_upd by (rewrite firstn_length; lia).
+      rewrite nth_firstn_lt by lia. lia.
+    + intros i Hi. rewrite nth_upd.
+      destruct (Nat.eqb i (Z.to_nat s) && Nat.ltb (Z.to_nat s) (length c))%bool eqn:E; [|apply C4; exact Hi].
+      exfalso. assert (i = Z.to_nat s) by lia. subst i. rewrite Z2Nat.id in Hi by lia. congruence.
+Qed.
+
+Lemma cinv_zero : forall good, cinv good zero_counts 0.
+Proof.
+  intros good. unfold cinv, zero_counts, NCOUNTS. repeat split.
+  - intros i. rewrite nth_repeat_gen. destruct (Nat.ltb i 257); lia.
+  - intros i _. rewrite nth_repeat_gen. destruct (Nat.ltb i 257); reflexivity.
+Qed.
+
+(* the non-zero grouping loop lists strictly increasing indices *)
+Lemma nz_scan_ge : forall l i0 k, In k (map fst (nz_scan l i0)) ->
+  i0 <= k < i0 + Z.of_nat (length l) /\ nth (Z.to_nat (k - i0)) l 0 <> 0.
+Proof.
+  induction l as [|f t IH]; intros i0 k H; cbn [nz_scan] in H; [contradiction|].
+  cbn [length]. destruct (f =? 0) eqn:E.
+  - destruct (IH _ _ H) as [A B]. split; [lia|].
+    replace (Z.to_nat (k - i0)) with (S (Z.to_nat (k - (i0 + 1)))) by lia. exact B.
+  - cbn [map fst In] in H. destruct H as [<-|H].
+    + split; [lia|]. rewrite Z.sub_diag. cbn. lia.
+    + destruct (IH _ _ H) as [A B]. split; [lia|].
+      replace (Z.to_nat (k - i0)) with (S (Z.to_nat (k - (i0 + 1)))) by lia. exact B.
+Qed.
+
+Lemma nz_scan_nodup : forall l i0, NoDup (map fst (nz_scan l i0)).
+Proof.
+  induction l as [|f t IH]; intros i0; cbn [nz_scan]; [constructor|].
+  destruct (f =? 0); [apply IH|]. cbn [map fst]. constructor; [|apply IH].
+  intros H. apply nz_scan_ge in H. lia.
+Qed.
+
+Lemma nz_count_le_set : forall good c n,
+  cinv good c n ->
+  (length (nz_scan (firstn 256 c) 0) <= length (filter good (map Z.of_nat (seq 0 256))))%nat.
+Proof.
+  intros good c n (C1 & C2 & C3 & C4).
+  rewrite <- (map_length fst (nz_scan (firstn 256 c) 0)).
+  apply NoDup_incl_length; [apply nz_scan_nodup|].
+  intros k Hk. apply nz_scan_ge in Hk. destruct Hk as [A B].
+  rewrite firstn_length, C1 in A. rewrite Z.sub_0_r in B.
+  rewrite nth_firstn_lt in B by lia.
+  apply filter_In. split.
+  - apply in_map_iff. exists (Z.to_nat k). split; [lia|]. apply in_seq. lia.
+  - destruct (good k) eqn:G; [reflexivity|]. exfalso. apply B. apply C4.
+    rewrite Z2Nat.id by lia. exact G.
+Qed.
+
+Lemma nz_count_le_class : forall c cnt n,
+  cinv (class_ok c) cnt n ->
+  (length (nz_scan (firstn 256 cnt) 0) <= length (class_set c))%nat.
+Proof. intros c cnt n H. unfold class_set. exact (nz_count_le_set _ _ _ H). Qed.
+
+(* ------------------------------------------------------- the main theorem *)
+(* For every table class (DC / sequential AC / progressive AC for 8- and 12-bit
+   data, lossless) and every stream of FEWER THAN 10^9 counted symbols of that
+   class: no count is negative, each count is at most the number of calls, the
+   number of non-zero counts is at most |class set| <= 240 <= 254, and therefore
+   (gen_table_always_valid) jpeg_gen_optimal_table returns a table that is
+   good, valid and accepted by both derived-table builders. *)
+Theorem image_histograms_admissible : forall c syms,
+  In c all_classes ->
+  Forall (okc c) syms ->
+  Z.of_nat (length syms) + 1 <= SENT ->
+  let freq := count_syms syms in
+  (forall f, In f freq -> 0 <= f) /\
+  (forall i, nth i freq 0 <= Z.of_nat (length syms)) /\
+  sumZ (firstn 256 freq) = Z.of_nat (length syms) /\
+  (length (nz_scan (firstn 256 freq) 0) <= length (class_set c))%nat /\
+  (length (class_set c) <= 240)%nat /\
+  exists t, gen_optimal_table freq = inr t /\
+    good_table t (map fst (nz_scan (firstn 256 freq) 0)) /\
+    valid_table t = true /\
+    (exists ct, make_c_derived (h_bits t) (h_vals t) 255 = Some ct) /\
+    (forall isDC, exists dt, make_d_derived (h_bits t) (h_vals t) isDC 255 = Some dt).
+Proof.
+  intros c syms Hc Hs Hn freq.
+  pose proof (count_fold_inv (class_ok c) syms zero_counts 0
+                (fun s H => class_ok_range c s Hc H) (cinv_zero _) Hs) as Hinv.
+  fold (count_syms syms) in Hinv. fold freq in Hinv. rewrite Z.add_0_l in Hinv.
+  pose proof (nz_count_le_class _ _ _ Hinv) as Hnz.
+  pose proof (class_set_le_240 c Hc) as H240.
+  destruct Hinv as (C1 & C2 & C3 & C4).
+  assert (Hnn : forall f, In f freq -> 0 <= f).
+  { intros f Hf. destruct (In_nth _ _ 0 Hf) as (i & _ & <-). apply C2. }
+  split; [exact Hnn|]. split.
+  { intros i. destruct (Nat.ltb i 256) eqn:E.
+    - rewrite <- C3. rewrite <- (nth_firstn_lt _ 256) by lia. apply nth_le_sumZ.
+      intros j. destruct (Nat.ltb j 256) eqn:Ej.
+      + rewrite nth_firstn_lt by lia. apply C2.
+      + rewrite nth_overflow by (rewrite firstn_length; lia). lia.
+    - destruct (Nat.eqb i 256) eqn:E6.
+      + assert (i = 256%nat) by lia. subst i. rewrite (C4 256%nat); [lia|].
+        destruct (class_ok c (Z.of_nat 256)) eqn:G; [|reflexivity].
+        apply (class_ok_range c _ Hc) in G. lia.
+      + rewrite nth_overflow by lia. lia. }
+  split; [exact C3|]. split; [exact Hnz|]. split; [exact H240|].
+  apply gen_table_always_valid; [exact Hnn|rewrite C3; exact Hn|lia].
+Qed.
+
+(* the three statistics passes, end to end *)
+Theorem seq_pass_admissible : forall prec blocks ds acs,
+  In prec lossy_precisions ->
+  Forall (fun b => length (snd b) = 64%nat) blocks ->
+  htest_blocks prec blocks = Some (ds, acs) ->
+  63 * Z.of_nat (length blocks) + 1 <= SENT ->
+  Forall (okc (CDc prec)) ds /\ Forall (okc (CAcSeq prec)) acs /\
+  Z.of_nat (length ds) + 1 <= SENT /\ Z.of_nat (length acs) + 1 <= SENT /\
+  In (CDc prec) all_classes /\ In (CAcSeq prec) all_classes.
+Proof.
+  intros prec blocks ds acs Hp Hl H Hn.
+  assert (Hm : max_coef_bits prec <= 15)
+    by (cbn in Hp; destruct Hp as [<-|[<-|[]]]; vm_compute; discriminate).
+  destruct (htest_blocks_ok _ _ _ _ Hm Hl H) as (A & B & C & D).
+  repeat split; try assumption; try lia;
+    cbn in Hp; destruct Hp as [<-|[<-|[]]]; cbn; tauto.
+Qed.
+
+Theorem lossless_pass_admissible : forall diffs,
+  exists syms, map lossless_symbol diffs = map Some syms /\ Forall (okc CLossless) syms /\
+               length syms = length diffs.
+Proof.
+  induction diffs as [|d t IH].
+  - exists []. repeat split. constructor.
+  - destruct IH as (syms & E & F & L). destruct (lossless_symbol_ok d) as (s & Es & Os).
+    exists (s :: syms). cbn [map length]. rewrite Es, E, L. repeat split. constructor; assumption.
+Qed.
+
+(* ------------------------------------------------------------ non-vacuity *)
+Example seq_block_example :
+  htest_one_block 8 3 ([5; -3; 0; 0; 1] ++ repeat 0 40 ++ [1023] ++ repeat 0 18) =
+  Some (2, [2; 33; 240; 240; 138; 0]).
+Proof. vm_compute. reflexivity. Qed.
+
+Example seq_guard_example :   (* |coef| = 1024 needs 11 bits > max_coef_bits 10 for 8-bit data *)
+  htest_one_block 8 0 ([0; 1024] ++ repeat 0 62) = None /\
+  exists r, htest_one_block 12 0 ([0; 1024] ++ repeat 0 62) = Some r.
+Proof. vm_compute. eauto. Qed.
+
+Example prog_example :
+  pop_run pstate0 [PRefine 0 [0; 2; 0; 0; 0; 0; 0; 0; 0; 0; 0; 0; 0; 0; 0; 0; 0; 0; 0; 3; 1; 0];
+                   PFirst 8 0 (repeat 0 63); PFirst 8 1 [0; 0; 6; 0]; PFlush] =
+  Some ([240; 33; 16; 34; 0], pstate0).
+Proof. vm_compute. reflexivity. Qed.
+
+Example lossless_example :
+  map lossless_symbol [0; 1; -1; 255; -32768; 32768; 65535; -70000] =
+  map Some [0; 1; 1; 8; 16; 16; 1; 13].
+Proof. vm_compute. reflexivity. Qed.
+
+Example admissible_example :
+  In (CAcSeq 8) all_classes /\ Forall (okc (CAcSeq 8)) [2; 33; 240; 240; 138; 0] /\
+  Z.of_nat (length [2; 33; 240; 240; 138; 0]) + 1 <= SENT.
+Proof. repeat split; try (vm_compute; tauto); try (repeat constructor). vm_compute. discriminate. Qed.
+
+(* --------------------------------------- beyond 10^9 counted symbols: refuted *)
+Lemma upd_upd_same : forall A (l : list A) i x y, upd i y (upd i x l) = upd i y l.
+Proof.
+  induction l as [|h t IH]; intros i x y; [destruct i; reflexivity|].
+  destruct i; cbn [upd]; [reflexivity|]. now rewrite IH.
+Qed.
+
+Lemma count_repeat : forall n s c, (Z.to_nat s < length c)%nat ->
+  fold_left count_one (repeat s n) c = upd (Z.to_nat s) (nthZ c (Z.to_nat s) + Z.of_nat n) c.
+Proof.
+  induction n as [|n IH]; intros s c H; cbn [repeat fold_left].
+  - unfold nthZ. rewrite Z.add_0_r. clear H. revert c. generalize (Z.to_nat s).
+    induction n as [|n IHn]; intros [|h t]; cbn [upd nth]; try reflexivity. now rewrite <- IHn.
+  - rewrite IH by (unfold count_one; rewrite upd_length; exact H).
+    unfold count_one at 2. unfold count_one. unfold nthZ. rewrite nth_upd.
+    replace (Nat.eqb (Z.to_nat s) (Z.to_nat s) && Nat.ltb (Z.to_nat s) (length c))%bool with true by lia.
+    rewrite upd_upd_same. f_equal. lia.
+Qed.
+
+Lemma lossless_zero_diffs : forall n, map lossless_symbol (repeat 0 n) = map Some (repeat 0 n).
+Proof. induction n; cbn [repeat map]; [reflexivity|]. rewrite IHn. reflexivity. Qed.
+
+(* A constant 32768 x 32768 one-component image (both dimensions <= 65500)
+   compressed losslessly with optimize_coding has 2^30 differences, all 0 (at
+   most one is not).  Its only symbol, category 0, is counted 2^30 > 10^9 times:
+   "freq[i] <= v2" never selects it, it keeps code length 0, and the generated
+   table contains NO symbol at all -- the encoder then has no code for the only
+   symbol of the image. *)
+Theorem huge_lossless_image_refuted :
+  let n := Z.to_nat (32768 * 32768) in
+  let diffs := repeat 0 n in
+  let syms := repeat 0 n in
+  32768 <= JPEG_MAX_DIMENSION /\
+  map lossless_symbol diffs = map Some syms /\ Forall (okc CLossless) syms /\
+  SENT < Z.of_nat (length syms) /\
+  exists t ct, gen_optimal_table (count_syms syms) = inr t /\
+    h_vals t = [] /\ ~ good_table t [0] /\
+    make_c_derived (h_bits t) (h_vals t) 255 = Some ct /\ encode_sym ct 0 = None.
+Proof.
+  intros n diffs syms.
+  assert (Hn : Z.of_nat n = 32768 * 32768) by (unfold n; lia). clearbody n.
+  split; [vm_compute; discriminate|].
+  split; [apply lossless_zero_diffs|]. split.
+  { apply Forall_forall. intros x Hx. apply repeat_spec in Hx. subst x. reflexivity. }
+  split.
+  { unfold syms. rewrite repeat_length. rewrite Hn. vm_compute. reflexivity. }
+  unfold syms, count_syms. rewrite count_repeat by (vm_compute; lia).
+  rewrite Hn.
+  set (freq := upd (Z.to_nat 0) (nthZ zero_counts (Z.to_nat 0) + 32768 * 32768) zero_counts).
+  assert (E : exists t, gen_optimal_table freq = inr t /\ h_vals t = [] /\
+                        exists ct, make_c_derived (h_bits t) (h_vals t) 255 = Some ct /\ encode_sym ct 0 = None).
+  { vm_compute. eexists. split; [reflexivity|]. split; [reflexivity|]. eexists. split; reflexivity. }
+  destruct E as (t & E1 & E2 & ct & E3 & E4). exists t, ct.
+  repeat split; try assumption.
+  intros (_ & _ & _ & _ & P & _). rewrite E2 in P. apply Permutation_length in P. discriminate.
+Qed.
+
+(* A lossy witness: 28571429 blocks (a 65500 x 65500 one-component image has
+   8188^2 = 67043344) whose 63 AC coefficients are all non-zero with 21 each of
+   1, 2 and 3 significant bits count the symbols 0x01, 0x02, 0x03 600000009
+   times each (1.8e9 in total).  1 + 600000009, then 600000009 + 600000009 >
+   10^9 is never selected again: the loop stops with two trees left, all three
+   symbols get length 1, and the table is rejected by jpeg_make_c_derived_tbl
+   (JERR_BAD_HUFF_TABLE) -- a legal image that cannot be compressed. *)
+Theorem huge_lossy_counts_refuted :
+  let n := Z.to_nat 600000009 in
+  let syms := repeat 1 n ++ repeat 2 n ++ repeat 3 n in
+  Forall (okc (CAcSeq 8)) syms /\
+  Z.of_nat (length syms) = 63 * 28571429 /\ 28571429 <= 8188 * 8188 /\
+  exists t, gen_optimal_table (count_syms syms) = inr t /\
+    h_bits t = [0; 3; 0; 0; 0; 0; 0; 0; 0; 0; 0; 0; 0; 0; 0; 0; 0] /\
+    valid_table t = false /\ make_c_derived (h_bits t) (h_vals t) 255 = None.
+Proof.
+  intros n syms.
+  assert (Hn : Z.of_nat n = 600000009) by (unfold n; lia). clearbody n. split.
+  { unfold syms. repeat (apply Forall_app; split);
+      apply Forall_forall; intros x Hx; apply repeat_spec in Hx; subst x; reflexivity. }
+  split.
+  { unfold syms. rewrite !app_length, !repeat_length. lia. }
+  split; [lia|].
+  unfold syms, count_syms. rewrite !fold_left_app.
+  rewrite (count_repeat n 1) by (vm_compute; lia).
+  rewrite (count_repeat n 2) by (rewrite upd_length; vm_compute; lia).
+  rewrite (count_repeat n 3) by (rewrite !upd_length; vm_compute; lia).
+  rewrite Hn.
+  vm_compute. eexists. repeat split; reflexivity.
 Qed.
